@@ -3,7 +3,12 @@
 use std::fmt::Debug;
 use std::io::ErrorKind;
 use std::net::{SocketAddr, SocketAddrV4, UdpSocket};
-use std::time::{Duration, Instant};
+use std::time::Duration;
+
+#[cfg(mainline_verif)]
+use crate::verif::Instant;
+#[cfg(not(mainline_verif))]
+use std::time::Instant;
 use tracing::{debug, trace, warn};
 
 use crate::common::{ErrorSpecific, Message, MessageType, RequestSpecific, ResponseSpecific};
